@@ -25,7 +25,9 @@ def work(item, drv):
 def summarize(ctx, items, results):
     what = ("Mutation-heavy generated programs (let mut, plain and compound assignment through nested array/tuple/struct accessors "
             "with constant and input-dependent indices, copies of aggregates followed by mutation of one copy, mutation inside nested "
-            "blocks / branches / match arms / loops, `mut` parameters mutated in callees, shadowing in nested scopes and loop bodies). "
+            "blocks / branches / match arms / loops, `mut` parameters mutated in callees, shadowing in nested scopes and loop bodies, by pattern variables "
+            "of let / for / for-join / match arms and by blocks whose only statement is a binding; profile `assignorder`: nested arrays assigned through "
+            "input-dependent indices, a later index expression assigning to a variable used as an earlier index). "
             "Every live variable of main is returned in a tuple, so a wrong merge or an aliased copy of ANY variable changes the output. "
             "Query per program: an argument tuple on which the by-value reference does not panic and the circuit's output differs -- unsat. "
             "disagreements_checked = solver queries discharged.")
